@@ -53,6 +53,15 @@ def c01(w):
             v.append(("lifecycle:%s:%s%s" % (pat, _cls(w, n), kbd),
                       "doer %s (%s) went through %s" % (n, _cls(w, n), pat)))
             continue
+        # the terminal says why it ended: a doer that finished by itself gets clean, one that raised gets abort
+        decs = w.decisions.get(n, [])
+        if w.kind.get(n) != "D" and decs and sum(1 for e in evs if e[1] == "enter") == 1:
+            last = decs[-1][1]
+            term = next((e[1] for e in evs if e[1] in ("clean", "cease", "abort")), None)
+            want = "clean" if last[0] in ("ret", "done") else "abort" if last[0] == "raise" else None
+            if want is not None and term != want:
+                v.append(("lifecycle-terminal:%s-instead-of-%s:%s%s" % (term, want, _cls(w, n), kbd),
+                          "doer %s (%s) %s, yet its terminal step was %s" % (n, _cls(w, n), "finished by itself" if want == "clean" else "raised", term)))
         # the lifecycle must be complete when the run ends (do() returned or raised), not finished
         # later by garbage collection of an orphaned generator
         patend = _pattern([e for e in w.trace[:w.end] if e[0] == n])
